@@ -1,10 +1,13 @@
 import OV.Model.C20Save
+import OV.Model.C20Hist
 import OV.Drivers.Loop
 /-! Line-protocol driver for C20.
 
 `C20 save <cfg: chars 0|1: deep, refuse, keepNames, tqdm-importable> <verbose 0|1> <k|-> <dir|-> <name> <files|-> <inits|->`
   files: `f:seed:len;…` (data files present before the call; content = `gen seed len`)
   inits: `name:sub:M:seed:len:np[:tensorname]` | `name:sub:E:file:off:len:valid` | `name:sub:U` | `name:sub:A:j` (alias of the j-th), `;`-separated, in `model.graphs()` order
+`C20 hist <cfg> <verbose> <k|-> <dir|-> <name> <files|-> <inits|-> <prior: k,k,…  (n = no fault)>`: the same call observed
+  after earlier calls (fault plans `prior`) on the same model object and destination; output prefixed with `prior=<res>,…`
 `C20 layout <cur> <size,size,…|->`  →  `off:len,…`
 Output of `save`: `res=… | calls=… | trace=… | cb=… | cv=… | heap=… | fs=… | load=…` -/
 namespace OV.Drivers.C20
@@ -109,35 +112,53 @@ def showObj (fs : FS) : TRef → String
     | some b => s!"e:1:{showBytes b}"
     | none => "e:1:ERR"
 
+/-- `prior`: `-` or `k,k,…` (`n` = no fault): fault plans of earlier calls on the same model object, same destination. -/
+def parsePrior (s : String) : Option (List (Option Nat)) :=
+  if s == "-" then some [] else
+  (s.splitOn ",").mapM fun t => if t == "n" then some none else t.toNat?.map some
+
+/-- One observed call: `m0` is the model before the whole history (what `cv=` is compared with), `m` the model object as
+the earlier calls left it. -/
+def runAndShow (deep verbose k dir name : String) (fs : FS) (m0 : Model) (prior : List (Option Nat)) : String :=
+  let kk : Option Nat := if k == "-" then none else k.toNat?
+  let dir := if dir == "-" then "" else dir
+  let cfg : Cfg := { deep := deep.startsWith "1", refuse := (deep.drop 1).toString.startsWith "1",
+                     keepNames := (deep.drop 2).toString.startsWith "1",
+                     tqdm := !((deep.drop 3).toString.startsWith "0") }
+  let calls : List Call := prior.map fun pk => { dir := dir, name := name, verbose := verbose == "1", k := pk }
+  let h := runHistory cfg calls m0 fs
+  let m := h.1
+  let r := runSave cfg m dir name (verbose == "1") h.2 kk
+  let res := match r.res with | .ok _ => "ok" | .error e => showErr e
+  let m' := r.model m
+  let cb := (match r.st.cbTotal with | some t => toString t | none => "-") ++ ";" ++
+    ",".intercalate (r.st.cb.map fun (x : String × Nat) => s!"{x.1}@{x.2}")
+  let ld := match load r.st.fs dir name with
+    | some l => ",".intercalate (sortStr (l.map fun (x : String × Bool × Bytes) => s!"{x.1}:{b01 x.2.1}:{showBytes x.2.2}"))
+    | none => "none"
+  let pre := if prior.isEmpty then [] else
+    ["prior=" ++ ",".intercalate ((historyResults cfg calls m0 fs).map fun
+      | .ok _ => "ok" | .error e => showErr e)]
+  " | ".intercalate (pre ++ [
+    s!"res={res}", s!"calls={r.st.calls}",
+    "trace=" ++ ",".intercalate (r.st.trace.map showOp),
+    s!"cb={cb}",
+    "cv=" ++ (if m'.cv == m0.cv then "same" else "diff"),
+    "heap=" ++ ",".intercalate (m'.heap.map (showObj r.st.fs)),
+    "fs=" ++ ",".intercalate (sortStr (r.st.fs.map fun (x : String × Content) => s!"{x.1}={showContent x.2}")),
+    s!"load={ld}",
+    "tn=" ++ ",".intercalate r.st.tn])
+
 def handle (args : List String) : String :=
   match args with
   | ["save", deep, verbose, k, dir, name, files, inits] =>
     match parseFiles files, parseInits inits with
-    | some fs, some pis =>
-      let m := mkModel pis 0
-      let kk : Option Nat := if k == "-" then none else k.toNat?
-      let dir := if dir == "-" then "" else dir
-      let cfg : Cfg := { deep := deep.startsWith "1", refuse := (deep.drop 1).toString.startsWith "1",
-                         keepNames := (deep.drop 2).toString.startsWith "1",
-                         tqdm := !((deep.drop 3).toString.startsWith "0") }
-      let r := runSave cfg m dir name (verbose == "1") fs kk
-      let res := match r.res with | .ok _ => "ok" | .error e => showErr e
-      let m' := r.model m
-      let cb := (match r.st.cbTotal with | some t => toString t | none => "-") ++ ";" ++
-        ",".intercalate (r.st.cb.map fun (x : String × Nat) => s!"{x.1}@{x.2}")
-      let ld := match load r.st.fs dir name with
-        | some l => ",".intercalate (sortStr (l.map fun (x : String × Bool × Bytes) => s!"{x.1}:{b01 x.2.1}:{showBytes x.2.2}"))
-        | none => "none"
-      " | ".intercalate [
-        s!"res={res}", s!"calls={r.st.calls}",
-        "trace=" ++ ",".intercalate (r.st.trace.map showOp),
-        s!"cb={cb}",
-        "cv=" ++ (if m'.cv == m.cv then "same" else "diff"),
-        "heap=" ++ ",".intercalate (m'.heap.map (showObj r.st.fs)),
-        "fs=" ++ ",".intercalate (sortStr (r.st.fs.map fun (x : String × Content) => s!"{x.1}={showContent x.2}")),
-        s!"load={ld}",
-        "tn=" ++ ",".intercalate r.st.tn]
+    | some fs, some pis => runAndShow deep verbose k dir name fs (mkModel pis 0) []
     | _, _ => "bad-op"
+  | ["hist", deep, verbose, k, dir, name, files, inits, prior] =>
+    match parseFiles files, parseInits inits, parsePrior prior with
+    | some fs, some pis, some pr => runAndShow deep verbose k dir name fs (mkModel pis 0) pr
+    | _, _, _ => "bad-op"
   | ["layout", cur, sizes] =>
     match cur.toNat?, (if sizes == "-" then some [] else (sizes.splitOn ",").mapM (·.toNat?)) with
     | some c, some zs => ",".intercalate ((layout c zs).map fun (x : Nat × Nat) => s!"{x.1}:{x.2}")
